@@ -66,16 +66,18 @@ ShadowedNs(doc, b) ==
 UrisOfRec(r) == (IF r.id = NONE THEN {} ELSE {r.id}) \cup {x.a : x \in SeqToSet(r.attrs)}
                 \cup {x.v.u : x \in {y \in SeqToSet(r.attrs) : y.v.t = "qn"}}
                 \cup {x.v.dt : x \in {y \in SeqToSet(r.attrs) : y.v.t = "lit"}}
+(* bundles are matched by position (all writers keep their order); a bundle whose own *)
+(* identifier lies in a namespace it shadows may itself come back under another name   *)
 ShadowExplains(src, other) ==
   /\ SameBag(ContentSeq(src.recs), other.recs)
-  /\ {src.bundles[i].id : i \in 1..Len(src.bundles)} = {other.bundles[i].id : i \in 1..Len(other.bundles)}
   /\ Len(src.bundles) = Len(other.bundles)
-  /\ \A i \in 1..Len(src.bundles) : \A j \in 1..Len(other.bundles) :
-        src.bundles[i].id = other.bundles[j].id =>
-          LET sb == src.bundles[i]
-              lost == {n \in 1..Len(sb.recs) : CountIn(ContentSeq(sb.recs), Content(sb.recs[n]))
-                                                > CountIn(other.bundles[j].recs, Content(sb.recs[n]))}
-          IN \A n \in lost : \E u \in UrisOfRec(sb.recs[n]) : \E sn \in ShadowedNs(src, sb) : IsPrefix(sn, u)
+  /\ \A i \in 1..Len(src.bundles) :
+        LET sb == src.bundles[i]
+            ob == other.bundles[i]
+            lost == {n \in 1..Len(sb.recs) : CountIn(ContentSeq(sb.recs), Content(sb.recs[n]))
+                                              > CountIn(ob.recs, Content(sb.recs[n]))}
+        IN /\ (sb.id = ob.id \/ \E sn \in ShadowedNs(src, sb) : IsPrefix(sn, sb.id))
+           /\ \A n \in lost : \E u \in UrisOfRec(sb.recs[n]) : \E sn \in ShadowedNs(src, sb) : IsPrefix(sn, u)
 AsRead(d) == [recs |-> ContentSeq(d.recs),
               bundles |-> [i \in 1..Len(d.bundles) |-> [id |-> d.bundles[i].id, recs |-> ContentSeq(d.bundles[i].recs)]]]
 KF_rt(step) == IF step.exc = "none" /\ ShadowExplains(step.src, AsRead(step.back)) THEN "KF-C03-shadow" ELSE ""
@@ -86,6 +88,8 @@ KnownFinding(step, c) ==
     [] c = "C08_pure"   -> KF_pure(step)
     [] c = "C12_frame"  -> KF_frame(step)
     [] c = "C01_rt"     -> KF_rt(step)
+    [] c = "C02_rt"     -> KF_rt(step)
+    [] c = "C10_read_xml" -> IF ShadowExplains(step.src, SpecReadXML(step.ast)) THEN "KF-C03-shadow" ELSE ""
     [] c = "C10_read_json" -> IF ShadowExplains(step.src, SpecReadJSON(step.ast)) THEN "KF-C03-shadow" ELSE ""
     [] OTHER -> ""
 
